@@ -893,13 +893,36 @@ theorem foldl_setAdd (l : List Str) (s : List Str) (hs : s.Nodup) :
       · exact Or.inl (Or.inr h1)
       · exact Or.inr h1
 
-theorem hs_construct_inv (l : List Str) (h : (l.map lower).Nodup) : Inv (HS.construct l) := by
-  have := foldl_setAdd l [] (by simp)
-  refine ⟨h, this.1, ?_⟩
-  intro x
-  simp only [HS.construct]
-  rw [this.2 x]; simp
+/-- the constructor (as repaired) establishes the invariant for EVERY input -/
+theorem hs_construct_inv_any (l : List Str) : Inv (HS.construct l) :=
+  inv_updateLoop ⟨[], []⟩ ⟨by simp, by simp, by simp⟩ l
 
+theorem hs_construct_inv (l : List Str) (_h : (l.map lower).Nodup) : Inv (HS.construct l) :=
+  hs_construct_inv_any l
+
+theorem updateLoop_of_nodup (c : St) (l : List Str) (hn : (l.map lower).Nodup)
+    (hd : ∀ x ∈ l, lower x ∉ c.set) :
+    (updateLoop c l).1 = ⟨c.headers ++ l, c.set ++ l.map lower⟩ := by
+  induction l generalizing c with
+  | nil => simp [updateLoop]
+  | cons x t ih =>
+    simp only [List.map_cons, List.nodup_cons] at hn
+    have hx : c.set.contains (lower x) = false := by simpa using hd x List.mem_cons_self
+    simp only [updateLoop, hx, Bool.false_eq_true, if_false]
+    rw [ih ⟨c.headers ++ [x], c.set ++ [lower x]⟩ hn.2 (fun y hy => by
+      simp only [List.mem_append, List.mem_singleton, not_or]
+      exact ⟨hd y (List.mem_cons_of_mem _ hy), fun e => hn.1 (e ▸ List.mem_map_of_mem hy)⟩)]
+    simp
+
+/-- without case-duplicates in the input nothing is dropped -/
+theorem construct_of_nodup (l : List Str) (hn : (l.map lower).Nodup) : HS.construct l = ⟨l, l.map lower⟩ := by
+  have := updateLoop_of_nodup ⟨[], []⟩ l hn (by simp)
+  simpa [HS.construct] using this
+
+/-- the constructor keeps the first spelling of every member: the case-insensitive ordered set
+built by inserting the items one by one -/
+theorem construct_headers (l : List Str) : (HS.construct l).headers = HSSpec.insertAll [] l :=
+  updateLoop_spec ⟨[], []⟩ ⟨by simp, by simp, by simp⟩ l
 
 end Wz.C08L
 
